@@ -1,6 +1,7 @@
 package main
 
 import (
+	"bytes"
 	"fmt"
 	"os"
 	"path/filepath"
@@ -234,6 +235,52 @@ func init() {
 		r.Set("sites_reached_with_2plus_keys", vis)
 		r.Set("max_distinct_outputs_per_grammar_and_flags", maxDistinct)
 		r.Set("grammar_flag_pairs", len(base))
+		// the same command three times in the SAME directory (the second and third run find the output of the first),
+		// with -o through a plain directory and through a symbolic link: all three outputs must be byte-identical
+		for si, sd := range gram.Seeds()[:2] {
+			for _, via := range []string{"plain", "symlink"} {
+				jroot := filepath.Join(root, fmt.Sprintf("same%d%s", si, via))
+				dir := filepath.Join(jroot, "w")
+				os.MkdirAll(filepath.Join(dir, "generated"), 0o777)
+				os.WriteFile(filepath.Join(jroot, "go.mod"), []byte("module vt\n\ngo 1.24\n"), 0o666)
+				os.WriteFile(filepath.Join(dir, "g.bnf"), []byte(sd.Text), 0o666)
+				out := "generated/gen"
+				if via == "symlink" {
+					if err := os.Symlink("generated", filepath.Join(dir, "out")); err != nil {
+						continue
+					}
+					out = "out/gen"
+				}
+				var trees []map[string][]byte
+				var exits []int
+				for k := 0; k < 3; k++ {
+					res := t.RunCLI(dir, "-a", "-o", out, "g.bnf")
+					exits = append(exits, res.Exit)
+					trees = append(trees, gen.ReadTree(filepath.Join(dir, "generated", "gen")))
+				}
+				r.Add("evaluations", 3)
+				r.Add("repeated_runs_in_the_same_directory", 1)
+				for k := 1; k < 3; k++ {
+					bad := ""
+					if exits[k] != exits[0] {
+						bad = fmt.Sprintf("exit status %d then %d", exits[0], exits[k])
+					}
+					for name, b0 := range trees[0] {
+						if strings.HasSuffix(name, ".go") && !bytes.Equal(b0, trees[k][name]) {
+							bad = name + " differs"
+						}
+					}
+					if len(trees[k]) != len(trees[0]) {
+						bad = "different sets of files"
+					}
+					if bad != "" {
+						r.Violate("c11", fmt.Sprintf("same-dir %s %s run%d", sd.Name, via, k+1), fmt.Sprintf("seed %s, gocc -a -o %s g.bnf run %d times in the same directory (-o through a %s): run 1 and run %d differ: %s", sd.Name, out, k+1, via, k+1, bad), map[string]any{"seed": sd.Name, "via": via})
+						break
+					}
+				}
+				os.RemoveAll(jroot)
+			}
+		}
 		r.Set("rule", "corpus = seeds, S2/L6/ErrFam picks and single-edit mutants of seeds (ill-formed grammars: exit status must be stable too); gocc rebuilt (overlay, /repo untouched) with every range-over-map routed through a shim that yields keys in a chosen order; per grammar x flag set: default (sorted) order, then every static range site x every non-default order policy {desc, rot1, swap01, midout} (deviation 1), every policy at all sites at once (thorough: pairs of sites), the uninstrumented in-process binary twice and the real CLI once; all .go bytes, exit status and the conflict count must equal the default run; distinct = (grammar, flags, policy) runs that agreed")
 		r.Assumption("arbitrary key permutations over-approximate what the Go runtime can do; orders outside the policy menu are not explored; goroutines/clocks/random numbers are asserted absent syntactically")
 		return r.Finish(nil)
